@@ -195,6 +195,8 @@ func main() {
 							fn.Assigns = append(fn.Assigns, Assign{src(fset, x.Lhs[i]), src(fset, x.Rhs[i])})
 						}
 					}
+				case *ast.IncDecStmt:
+					fn.Assigns = append(fn.Assigns, Assign{src(fset, x.X), x.Tok.String()})
 				case *ast.GenDecl:
 					if x.Tok == token.VAR {
 						for _, sp := range x.Specs {
